@@ -28,7 +28,7 @@ type isWorld struct {
 var kindSwaps = map[string]string{"withstack": "assertion", "assertion": "withstack", "hint": "detail", "detail": "hint",
 	"goerr": "nofmtleaf", "nofmtleaf": "goerr", "fmtleaf": "oldfmtleaf", "oldfmtleaf": "fmtrleaf", "fmtrleaf": "ncleaf", "ncleaf": "lowleaf", "lowleaf": "fmtleaf",
 	"pkgmsg": "nofmtwrap", "nofmtwrap": "fmtwrap", "fmtwrap": "causewrap", "causewrap": "oldfmtwrap", "oldfmtwrap": "fmtrwrap", "fmtrwrap": "lowwrap", "lowwrap": "goerrorf", "goerrorf": "pkgmsg",
-	"http": "grpc", "handled": "handleassert", "join": "gojoin", "gojoin": "join", "new": "goerr", "withmsg": "pkgmsg"}
+	"http": "grpc", "handled": "handleassert", "opaque": "handled", "combine": "secondary", "secondary": "combine", "join": "gojoin", "gojoin": "join", "new": "goerr", "withmsg": "pkgmsg"}
 
 // perturb returns near-equal copies of the tree, labelled.
 func perturb(g *gen.Gen, t *gen.Node) (out []*gen.Node, labels []string) {
